@@ -10,9 +10,10 @@
         prepared tree for the inclusive algorithms (canonicalPrep only sorts and drops attributes);
      5. dsig_sound_reader : Dsig.v's soundness with canon := canon_model and reparse := reparse_model.
 
-   What [c14n_wf] excludes, explicitly: processing instructions and directives inside the canonicalised element (the
-   canonicalisers keep them; the round trip is not proved for them), comments containing "--" or ending in '-' (the reader
-   refuses them; no reader-produced tree has one), values that are not valid UTF-8 in the Char range (the writer replaces
+   What [c14n_wf] excludes, explicitly: directives inside the canonicalised element (the canonicalisers keep them; the
+   round trip is not proved for them), processing instructions whose target is "xml" or whose instruction starts with white
+   space or holds "?>", comments containing "--" or ending in '-' (the reader refuses or changes them; no reader-produced
+   tree has one, the target "xml" aside), values that are not valid UTF-8 in the Char range (the writer replaces
    such runes by U+FFFD: the tree read back differs).  U+000D IS covered: the canonical writer emits "&#xD;". *)
 From Coq Require Import Lia.
 From V Require Import Base Time Escape EscapeProofs Xml Ns SchemaDefs Schema Build P_Build XmlNameTables XmlTok P_XmlTok Response Dsig P_Dsig P_DsigExact Canon P_Canon DsigReader.
@@ -89,17 +90,29 @@ Fixpoint comment_go (prev_dash : bool) (s : string) : bool :=
   end.
 Definition comment_ok (s : string) : bool := comment_go false s.
 
+(* a processing instruction the reader accepts and gives back: the target is a name (not "xml": the declaration checks are
+   not part of this round trip), the instruction does not start with white space (the reader skips it) and holds no "?>" *)
+Fixpoint pi_go (prev_q : bool) (s : string) : bool :=
+  match s with
+  | EmptyString => true
+  | String c r => negb (prev_q && is_ch 62 c) && pi_go (is_ch 63 c) r
+  end.
+Definition pi_inst_ok (i : string) : bool :=
+  match i with EmptyString => true | String c _ => negb (is_space c) && pi_go false i end.
+Definition pi_ok (t i : string) : bool :=
+  is_name t && str_all name_cont t && negb (t =?s "xml") && pi_inst_ok i.
+
 Definition cattr_ok (x : attr) : bool := xname_ok (at_space x) (at_key x) && valid_xml_text (at_val x).
 
 (* element trees the canonical writer's output of which is read back: names the real reader accepts and splits back into
    the same (space, tag); values = valid UTF-8 in the XML Char range (U+000D allowed); comments as above;
-   processing instructions and directives excluded *)
+   processing instructions as above; directives excluded *)
 Fixpoint c14n_wf (n : node) : bool :=
   match n with
   | Elem sp t a k => xname_ok sp t && forallb cattr_ok a && forallb c14n_wf k
   | Text s => valid_xml_text s
   | Comment s => comment_ok s
-  | ProcInst _ _ => false
+  | ProcInst t i => pi_ok t i
   | Directive _ => false
   end.
 Definition c14n_wf_elem (n : node) : bool := is_elem n && c14n_wf n.
@@ -323,6 +336,74 @@ Proof.
   rewrite (run_comment_body cs rest s zero zero EmptyString H eq_refl). reflexivity.
 Qed.
 
+(* ---- processing instructions ---- *)
+Lemma run_pi_target cs x : str_all name_cont x = true -> forall acc rest,
+  run cs (SPITarget acc) (x ++ rest) = run cs (SPITarget (srev_app x acc)) rest.
+Proof.
+  induction x as [|c x IH]; intros H acc rest; [reflexivity|].
+  cbn [str_all] in H. apply andb_true_iff in H as [H1 H2].
+  cbn [append srev_app]. rewrite run_cons. cbn [step]. rewrite H1. apply IH, H2.
+Qed.
+
+Lemma run_pi_body cs t rest : (t =?s "xml") = false -> forall i b0 buf,
+  pi_go (is_ch 63 b0) i = true ->
+  run cs (SPIBody t b0 buf) (i ++ "?>" ++ rest) = emit [RProcInst t (srev buf ++ i)] (run cs S0 rest).
+Proof.
+  intros Hx. induction i as [|c i IH]; intros b0 buf HG.
+  - change ("" ++ "?>" ++ rest)%string with (String "?"%char (String ">"%char rest)).
+    rewrite run_cons. cbn [step]. unfold pi_body_step at 1.
+    replace (is_ch 62 "?"%char) with false by reflexivity. rewrite Bool.andb_false_r.
+    rewrite run_cons. cbn [step]. unfold pi_body_step.
+    replace (is_ch 63 "?"%char) with true by reflexivity. replace (is_ch 62 ">"%char) with true by reflexivity. cbn [andb drop1].
+    unfold pi_finish. rewrite Hx. cbn [andb]. rewrite app_nil_r_s. reflexivity.
+  - change ((String c i ++ "?>" ++ rest)%string) with (String c (i ++ "?>" ++ rest)).
+    cbn [pi_go] in HG. apply andb_true_iff in HG as [HN HG]. apply negb_true_iff in HN.
+    rewrite run_cons. cbn [step]. unfold pi_body_step at 1. rewrite HN.
+    rewrite (IH c (String c buf) HG). rewrite srev_cons, app_assoc_s. reflexivity.
+Qed.
+
+Definition pi_text (t i : string) : string := "?" ++ t ++ (if i =?s "" then EmptyString else " " ++ i) ++ "?>".
+
+Lemma run_pi cs t i rest : pi_ok t i = true ->
+  run cs SLt (pi_text t i ++ rest) = emit [RProcInst t i] (run cs S0 rest).
+Proof.
+  unfold pi_ok. intros H. apply andb_true_iff in H as [H Hi]. apply andb_true_iff in H as [H Hx].
+  apply andb_true_iff in H as [Hn Hc]. apply negb_true_iff in Hx.
+  destruct t as [|c0 nm]; [discriminate Hn|].
+  cbn [str_all] in Hc. apply andb_true_iff in Hc as [C0 Cn].
+  unfold pi_text. rewrite !app_assoc_s.
+  change ("?" ++ String c0 nm ++ (if i =?s "" then EmptyString else " " ++ i) ++ "?>" ++ rest)%string
+    with (String "?"%char (String c0 (nm ++ (if i =?s "" then EmptyString else " " ++ i) ++ "?>" ++ rest))).
+  rewrite run_cons. cbn [step].
+  replace (is_ch 47 "?"%char) with false by reflexivity. replace (is_ch 63 "?"%char) with true by reflexivity.
+  rewrite run_cons. cbn [step]. rewrite C0.
+  rewrite (run_pi_target cs nm Cn).
+  set (acc := srev_app nm (String c0 EmptyString)).
+  assert (Fin : finish_name acc = Some (String c0 nm)).
+  { unfold finish_name, acc. rewrite srev_srev_app. change (srev (String c0 "") ++ nm)%string with (String c0 nm). rewrite Hn. reflexivity. }
+  (* a byte that is neither a name byte nor white space starts the body *)
+  assert (Hbody : forall c R, name_cont c = false -> is_space c = false ->
+            run cs (SPITarget acc) (String c R) = run cs (SPIBody (String c0 nm) zero EmptyString) (String c R)).
+  { intros c R Hnc Hsp. rewrite !run_cons. cbn [step]. rewrite Hnc, Fin. unfold pi_space_step. rewrite Hsp. reflexivity. }
+  destruct i as [|c1 r1].
+  - cbn [String.eqb]. change (EmptyString ++ "?>" ++ rest)%string with (String "?"%char (String ">"%char rest)).
+    rewrite (Hbody "?"%char _ eq_refl eq_refl).
+    change (String "?"%char (String ">"%char rest)) with ("" ++ "?>" ++ rest)%string.
+    rewrite (run_pi_body cs (String c0 nm) rest Hx EmptyString zero EmptyString eq_refl). reflexivity.
+  - cbn [pi_inst_ok] in Hi. apply andb_true_iff in Hi as [Hsp HG]. apply negb_true_iff in Hsp.
+    replace (String c1 r1 =?s "") with false by reflexivity.
+    rewrite !app_assoc_s.
+    change (" " ++ String c1 r1 ++ "?>" ++ rest)%string with (String " "%char (String c1 (r1 ++ "?>" ++ rest))).
+    rewrite run_cons. cbn [step]. replace (name_cont " "%char) with false by reflexivity. rewrite Fin.
+    unfold pi_space_step at 1. replace (is_space " "%char) with true by reflexivity.
+    assert (Hsp2 : run cs (SPISpace (String c0 nm)) (String c1 (r1 ++ "?>" ++ rest)) =
+                   run cs (SPIBody (String c0 nm) zero EmptyString) (String c1 (r1 ++ "?>" ++ rest))).
+    { rewrite !run_cons. cbn [step]. unfold pi_space_step. rewrite Hsp. reflexivity. }
+    rewrite Hsp2.
+    change (String c1 (r1 ++ "?>" ++ rest)) with (String c1 r1 ++ "?>" ++ rest)%string.
+    rewrite (run_pi_body cs (String c0 nm) rest Hx (String c1 r1) zero EmptyString HG). reflexivity.
+Qed.
+
 (* ---- elements ---- *)
 Definition celem_body (sp t : string) (a : list attr) (k : list node) : string :=
   full_name sp t ++ c14n_write_attrs a ++ ">" ++ c14n_write_kids k ++ "</" ++ full_name sp t ++ ">".
@@ -363,6 +444,12 @@ Proof.
       change (String "!"%char (String "-"%char (String "-"%char (s ++ "-->" ++ c14n_write_kids k ++ String "<"%char R))))
         with ("!--" ++ s ++ "-->" ++ (c14n_write_kids k ++ String "<"%char R))%string.
       rewrite (run_comment cs s _ W1). change S0 with (SText MTop zero zero EmptyString).
+      rewrite (IH Hk W2 zero zero EmptyString R eq_refl eq_refl).
+      rewrite !emit_emit. change (srev "") with "". rewrite <- app_assoc. reflexivity.
+    + cbn [c14n_write_kids ckids c14n_write ctoks c14n_wf] in *.
+      change ("<?" ++ tg ++ (if i =?s "" then EmptyString else " " ++ i) ++ "?>")%string with (String "<"%char (pi_text tg i)).
+      cbn [append]. rewrite (run_text_lt cs b0 b1 racc _ V).
+      rewrite app_assoc_s, (run_pi cs tg i _ W1). change S0 with (SText MTop zero zero EmptyString).
       rewrite (IH Hk W2 zero zero EmptyString R eq_refl eq_refl).
       rewrite !emit_emit. change (srev "") with "". rewrite <- app_assoc. reflexivity.
 Qed.
@@ -600,17 +687,17 @@ Module ReaderExample.
   Definition cr : string := String (byte 13) EmptyString.
   Definition tab : string := String (byte 9) EmptyString.
   (* an element with: attributes out of order, TAB / '>' / a double quote in a value, U+000D and '>' in character data, adjacent
-     character data, a comment, a redundant declaration *)
+     character data, a comment, two processing instructions, a redundant declaration *)
   Definition el : node :=
     Elem "p" "Root" [A "ID" "x"; {| at_space := "xmlns"; at_key := "p"; at_val := "urn:p" |}]
       [Elem "p" "Item" [A "b" ("t" ++ tab ++ ">" ++ String (byte 34) "q"); A "a" "1"; {| at_space := "xmlns"; at_key := "p"; at_val := "urn:p" |}]
             [Text "he"; Comment "note - one"; Text ("llo" ++ cr ++ " > ü")];
-       Elem "" "Empty" [] []].
+       Elem "" "Empty" [] []; ProcInst "pi" "data ?"; ProcInst "p2" ""].
   Definition el_read (comments : bool) : node :=
     Elem "p" "Root" [{| at_space := "xmlns"; at_key := "p"; at_val := "urn:p" |}; A "ID" "x"]
       [Elem "p" "Item" [A "a" "1"; A "b" ("t" ++ tab ++ ">" ++ String (byte 34) "q")]
             (if comments then [Text "he"; Comment "note - one"; Text ("llo" ++ cr ++ " > ü")] else [Text ("hello" ++ cr ++ " > ü")]);
-       Elem "" "Empty" [] []].
+       Elem "" "Empty" [] []; ProcInst "pi" "data ?"; ProcInst "p2" ""].
 
   (* every algorithm: the bytes are produced, the prepared tree satisfies the premise, the reader gives it back *)
   Definition reads_back (a : canon_alg) : bool :=
@@ -625,11 +712,14 @@ Module ReaderExample.
 
   Example canonical_bytes_exc :
     canon_model (CExc "" false) el =
-    Some ("<p:Root xmlns:p=""urn:p"" ID=""x""><p:Item a=""1"" b=""t&#x9;>&quot;q"">hello&#xD; &gt; ü</p:Item><Empty></Empty></p:Root>").
+    Some ("<p:Root xmlns:p=""urn:p"" ID=""x""><p:Item a=""1"" b=""t&#x9;>&quot;q"">hello&#xD; &gt; ü</p:Item><Empty></Empty><?pi data ??><?p2?></p:Root>").
   Proof. vm_compute. reflexivity. Qed.
 
   (* what the premise excludes is really refused or changed by the reader *)
   Example comment_with_double_dash_not_read_back : read_tree (c14n_write (Elem "" "a" [] [Comment "x--y"])) = Err syntax_error.
+  Proof. vm_compute. reflexivity. Qed.
+  Example pi_with_leading_space_changed :
+    read_tree (c14n_write (Elem "" "a" [] [ProcInst "pi" " x"])) = Ok (Elem "" "a" [] [ProcInst "pi" "x"]).
   Proof. vm_compute. reflexivity. Qed.
   Example invalid_utf8_not_read_back :
     read_tree (c14n_write (Elem "" "a" [] [Text (String (byte 255) "")])) = Ok (Elem "" "a" [] [Text repl_char]).
